@@ -4,14 +4,15 @@ import os, collections
 V = os.path.dirname(os.path.dirname(os.path.abspath(__file__)))
 L = ['## s13  False-alarm tests (behaviour-preserving refactorings) and mutation sweep', '']
 bm = [l.rstrip('\n').split('\t') for l in open(V + '/benign/matrix.tsv')] if os.path.exists(V + '/benign/matrix.tsv') else []
+bm2 = [l.rstrip('\n').split('\t') for l in open(V + '/benign/matrix_final.tsv')] if os.path.exists(V + '/benign/matrix_final.tsv') else []
 if bm:
     pats = sorted({r[0] for r in bm})
-    bad = [r for r in bm if len(r) > 2 and r[2] != 'rc=0']
+    bad = [r for r in bm + bm2 if len(r) > 2 and r[2] != 'rc=0']
     L += ['**Behaviour-preserving refactorings** (`benign/`, written by three sub-agents asked for routine maintenance changes with bit-identical public',
           'results: helper extraction, loop fusion/splitting, container changes, guard clauses, member-pointer tables, `setZero(r,c)`, ...; each',
           'verified by its author with a byte-identical hex dump).  Every check is run against every patch (`tools/benign_matrix.sh`); a non-zero',
           'exit would be a false alarm.', '',
-          'Result: %d patches x checks = %d runs, **%d non-zero exits**.' % (len(pats), len(bm), len(bad)), '']
+          'Result: %d patches x checks = %d runs, plus %d re-runs (`benign/matrix_final.tsv`: the checks extended after seeding rounds 3-6 - %s - against all patches with the final code): **%d non-zero exits**.' % (len(pats), len(bm), len(bm2), ', '.join(sorted({r[1] for r in bm2})), len(bad)), '']
     for r in bad:
         L.append('* `%s` vs `%s`: %s' % (r[0], r[1], ' '.join(r[2:])[:200]))
     if bad:
